@@ -94,8 +94,17 @@ class ParseUserData:
 
 
     def getBuiltinFormatJSON(self) -> str:
+        if self.subType == UserDataFormat.json.value or \
+                self.subType == UserDataFormat.text.value:
+            try:
+                string = bytes.decode(self.data).strip().rstrip('\x00')
+            except UnicodeDecodeError:
+                # Not valid UTF-8, so it is neither JSON nor text: hexdump
+                # it instead of failing the whole PEL.
+                mv = memoryview(self.data)
+                return json.dumps(hexdump(mv))
+
         if self.subType == UserDataFormat.json.value:
-            string = bytes.decode(self.data).strip().rstrip('\x00')
             return string
         elif self.subType == UserDataFormat.cbor.value:
             # TODO, support CBOR (binary JSON)
@@ -111,7 +120,7 @@ class ParseUserData:
         elif self.subType == UserDataFormat.text.value:
             lines = []
             line = ''
-            for ch in bytes.decode(self.data).strip().rstrip('\x00'):
+            for ch in string:
                 if ch != '\n':
                     if ord(ch) < ord(' ') or ord(ch) > ord('~'):
                         ch = '.'
